@@ -81,6 +81,30 @@ class Site:
         ops = ",".join(sig(q.novers(o))[:70] for o in self.operands)
         return "%s|%s|%s|%s" % (b, self.kind, self.what, ops)
 
+    @property
+    def parent_key(self):
+        """the same site as it would be keyed if the closure's code stood in the enclosing function (captured variables replaced by what
+        they capture): `(!x.is_empty()).then(|| f(&x).unwrap())` and `if x.is_empty() { None } else { Some(f(&x).unwrap()) }` are one site"""
+        body = self.body
+        if body.kind != "Closure":
+            return None
+        par = body.prog.by_id.get(body.parent)
+        if par is None:
+            return None
+        caps = q.closure_captures(par, body.nname)
+        if not caps:
+            return None
+        caps = dict(caps)
+        caps.update({k.replace("_ref__", ""): v for k, v in list(caps.items())})
+        b = par.nname
+        for pre in ("melstf::state::", "melstf::", "melvm::", "tip911_stakeset::"):
+            if b.startswith(pre):
+                b = b[len(pre):]
+                break
+        b = b.replace("{closure#", "c").replace("}", "")
+        ops = ",".join(sig(q.novers(q.subst(o, {}, caps)))[:70] for o in self.operands)
+        return "%s|%s|%s|%s" % (b, self.kind, self.what, ops)
+
     def where(self):
         return self.body.where(self.bb)
 
@@ -106,7 +130,8 @@ def inventory(prog, bodies):
             e = None
             if any(n.endswith(s) or p.endswith(s) for s in STD_PANICKING):
                 e = b.rec_call(t, bi)
-                arg = e[2][0] if e[0] == "call" and e[2] else e
+                # the unwrapped value itself (rec_call may have rewritten `serialize(x).unwrap()` into its canonical spelling)
+                arg = b.rec_operand(t["args"][0], bi, "T") if t["args"] else e
                 sites.append(Site(b, bi, "unwrap", n.split("::")[-1], [arg], e, t["exp"]))
             elif any(s in n for s in INDEXING) or (("ops::Index<" in n or "ops::IndexMut<" in n) and n.split("::")[-1] in ("index", "index_mut")):
                 e = b.rec_call(t, bi)
